@@ -150,9 +150,13 @@ pub fn check_static(input: &MNode, out: &MNode) -> Vec<(String, String)> {
         s
     };
     let mut under_annotation: HashSet<String> = HashSet::new();
+    let mut under_phantom: HashSet<String> = HashSet::new();
     input.walk(&mut |n| {
         if n.tag.starts_with("annotation") {
             under_annotation.extend(n.all_ids());
+        }
+        if n.tag == "mphantom" {
+            under_phantom.extend(n.all_ids());
         }
     });
     input.walk(&mut |n| {
@@ -178,6 +182,27 @@ pub fn check_static(input: &MNode, out: &MNode) -> Vec<(String, String)> {
                 v.push(("author-id-lost:token".to_string(), format!("token {:?} had author id {:?}; the only token with that text now has id {:?}", n.txt(), id, same_out[0].get_attr("id"))));
             }
         } else if TWO_D.contains(&n.tag.as_str()) && !under_annotation.contains(id) && !(n.tag == "mmultiscripts" && n.kids.len() < 2) {
+            // (4') no element of this kind disappeared or appeared: the author id is still on one of them
+            // (displayed elements of the input; elements of the output that MathCAT did not create itself)
+            fn count(t: &MNode, tag: &str) -> usize {
+                if t.tag.starts_with("annotation") || t.tag == "mphantom" {
+                    return 0;
+                }
+                let own = (t.tag == tag && t.get_attr("data-changed") != Some("added")) as usize;
+                own + t.kids.iter().map(|k| count(k, tag)).sum::<usize>()
+            }
+            let count = |t: &MNode| count(t, &n.tag);
+            if under_phantom.contains(id) {
+                return;
+            }
+            // (an mmultiscripts whose scripts all render nothing is replaced by its base, and a neighbouring script on an
+            // empty base may be rebuilt as a new mmultiscripts: the counts then agree by accident)
+            let hollow = n.tag == "mmultiscripts" && n.kids.iter().skip(1).all(|k| k.tag == "none" || k.tag == "mprescripts" || crate::props::c01::renders_nothing(k));
+            // (and a script on an empty base is merged with its neighbours into one mmultiscripts, which dismantles them:
+            // for such inputs equal counts say nothing)
+            if !hollow && !crate::props::c01::has_degenerate(input) && !out_by_id.contains_key(id) && count(input) == count(out) {
+                v.push(("author-id-lost:2d".to_string(), format!("author id {:?} was on <{}>; the returned MathML has as many <{}> elements as the input but none carries that id", id, n.tag, n.tag)));
+            }
             if let Some(o) = out_by_id.get(id) {
                 if o.tag != n.tag && !(n.tag.starts_with("ms") && o.tag.starts_with("ms")) && o.tag != "mmultiscripts" {
                     v.push(("author-id-migrated:2d".to_string(), format!("author id {:?} was on <{}> but now sits on <{}>", id, n.tag, o.tag)));
